@@ -405,6 +405,15 @@ pub fn interpret(p: &Prog, plan: &Plan) -> Expect {
                     // the named branch's most recent step result
                     let (t, h) = vals[nb].tag();
                     se.caps.push(ExpEv { id: c.id, k: K::Snap, tag: t, h });
+                    // a `let mut` name is borrowed mutably and its payload is changed in place:
+                    // the change must be what the branch continues with
+                    if p.branches[nb].name.as_ref().map(|n| n.1).unwrap_or(false) {
+                        vals[nb] = match vals[nb] {
+                            Val::Ok(h) => Val::Ok(mixf(h, c.id)),
+                            Val::Err(h) => Val::Err(mixf(h, c.id)),
+                            Val::Nil => Val::Nil,
+                        };
+                    }
                 }
                 if std::ptr::eq(a, &br.init) {
                     se.caps.push(ExpEv { id: a.id, k: K::Init, tag: tag::NONE, h: 0 });
